@@ -707,12 +707,8 @@ def f_un(name, a):
 def f_pow(a, b):
     if not is_sym(a) and not is_sym(b):
         a, b = _fl(a), _fl(b)
-        try:
-            return float(math.pow(a, b))
-        except (OverflowError, ZeroDivisionError):
-            return float("inf")
-        except ValueError:
-            return float("nan")
+        with np.errstate(all="ignore"):  # IEEE pow: 0 ** -1.5 = inf, (-1) ** 0.5 = nan
+            return float(np.power(np.float64(a), np.float64(b)))
     if not is_sym(b):
         bf = _fl(b)
         if bf == int(bf) and 0 <= int(bf) <= 8:
